@@ -145,4 +145,20 @@ PROPS = {
         "require_counters": ["conversions", "lookups_in_range", "lookups_out_of_range", "empty_sets", "full_sets", "audit_index_cardinalities"],
         "assumptions": ASSUME_COMMON,
     },
+    "C09": {
+        "rule": ("each case: random domain (<=36 states, 1-4 variables of sizes 2-4), one of five modes: boolean image, MT-integer "
+                 "distance image (negative = unreachable, result forest fully reduced as documented), EV+ distance image (+inf = "
+                 "unreachable), integer and real vector-matrix / matrix-vector products; relation = union of 1-4 random events "
+                 "(guards, constants, non-deterministic choices, +-1 steps, untouched variables -> identity-skipped levels) or a "
+                 "random table, in a fully-, quasi- or identity-reduced relation forest; set/vector forests fully or quasi reduced, "
+                 "result in the operand's forest or another one; PRE_IMAGE and POST_IMAGE / VM_MULTIPLY and MV_MULTIPLY compared at "
+                 "every state with the relational definition; operands re-evaluated; forests audited.  non-trivial = non-empty "
+                 "relation / non-zero product; distinct = hash(shape, mode, tables)"),
+        "passes": {
+            "quick": [P("main", "asan", 2000)],
+            "thorough": [P("main", "asan", 50000)],
+        },
+        "require_counters": ["post_images", "pre_images", "vm_multiplies", "mv_multiplies", "image_mode_bool", "image_mode_mtdist", "image_mode_evplus"],
+        "assumptions": ASSUME_COMMON,
+    },
 }
